@@ -555,6 +555,12 @@ func miscGenC14we(seed uint64, tier string) *Scenario {
 	if s.Net.LatencyNs == 0 && r.Chance(2, 3) {
 		s.Net.LatencyNs = int64(core.Pick(r, 1000, 100000, 3000000))
 	}
+	if r.Chance(1, 4) {
+		// the client retires a connection itself (stream ids used up) while
+		// its streams are still running; the server's GOAWAY then meets a
+		// transport that is already draining
+		s.Client.MaxStreamID = uint32(2*r.Range(1, 8) + 1)
+	}
 	var c miscStopCfg
 	c.Drain = true
 	horizon := core.Pick(r, 500000, 20000000, 600000000)
